@@ -34,14 +34,18 @@ VARIANTS = [("repository", "FALSE", "FALSE", "TripsOrig"), ("repair", "TRUE", "F
             ("repair+push", "TRUE", "TRUE", "TripsNone")]
 
 
-def cfg_variant(cfg: str, variant: tuple, tmp: str) -> str:
-    """The instance `cfg` with the transcription variant substituted (written to the scratch dir)."""
+def cfg_variant(cfg: str, variant: tuple, tmp: str, no_invariant: bool = False) -> str:
+    """The instance `cfg` with the transcription variant substituted (written to the scratch dir).
+    no_invariant: for runs whose product is the *whole* state graph (-dump) - a tripped invariant would end the
+    exploration at the first trip and leave a truncated graph (a vacuous conformance stage)."""
     txt = open(tlc.SPEC / cfg).read()
+    if no_invariant:
+        txt = re.sub(r"(?m)^INVARIANT .*\n", "", txt)
     new = re.sub(r"Repair = \w+\s+PushOnNew = \w+\s+KnownTrips <- \w+",
                  f"Repair = {variant[1]}  PushOnNew = {variant[2]}  KnownTrips <- {variant[3]}", txt)
     if new == txt and variant[1] != "FALSE":
         raise tlc.MachineryFailure(f"cannot derive variant {variant[0]} of {cfg}")
-    path = os.path.join(tmp, f"{variant[0].replace('+', '_')}_{cfg}")
+    path = os.path.join(tmp, f"{variant[0].replace('+', '_')}{'_noinv' if no_invariant else ''}_{cfg}")
     open(path, "w").write(new)
     return path
 
@@ -287,9 +291,15 @@ def _graph_conformance(chk, pool, cfg, depth, stats, tmp, tlc_workers, variant) 
     out: dict = {}
     dump = os.path.join(tmp, cfg.replace(".cfg", ""))
     t0 = time.time()
-    r = tlc.run_tlc("MC_FaultLog", cfg_variant(cfg, variant, tmp), workers=tlc_workers, dump=dump, timeout=1500)
+    # first the clauses (this run may stop at the first trip), then the whole graph without them
+    rv = tlc.run_tlc("MC_FaultLog", cfg_variant(cfg, variant, tmp), workers=tlc_workers, timeout=1500)
+    if rv.violated:
+        r = tlc.run_tlc("MC_FaultLog", cfg_variant(cfg, variant, tmp, no_invariant=True), workers=tlc_workers, dump=dump, timeout=1500)
+        r.violated = rv.violated
+    else:
+        r = tlc.run_tlc("MC_FaultLog", cfg_variant(cfg, variant, tmp), workers=tlc_workers, dump=dump, timeout=1500)
     out["mc"] = {"generated": r.states, "distinct_transitions": r.distinct, "depth": r.depth,
-                 "violated": r.violated, "wall_s": round(r.wall_s, 1)}
+                 "violated": r.violated, "wall_s": round(r.wall_s + rv.wall_s, 1)}
     if r.errors or not r.completed and not r.violated:
         raise tlc.MachineryFailure(f"TLC {cfg}: {r.errors[:3]}\n{r.out[-1500:]}")
     if r.violated:
